@@ -217,16 +217,27 @@ MODELLED_MSG_STEPS = {"send", "recv", "update", "flush", "deliver", "drop", "hos
 def strict_generated(scheds, trace_path, wd, timeout=900, max_steps=None):
     """Strict pass for traces of GENERATED message-layer schedules: the runs are grouped by channel configuration and every group is
     compared event by event with Renet.tla (one connection) / TraceServerStrict (RenetServer with several ids)."""
+    # the quick tier follows the cheapest runs of every batch up to `max_steps` recorded events (a strict step costs between
+    # 0.3 ms and 30 ms depending on how much reassembly state the run builds up); the thorough tier follows every run
+    pat0 = re.compile(r'"run":(\d+)[,}]')
+    nev = {}
+    with open(trace_path) as f:
+        for line in f:
+            m = pat0.search(line)
+            if m:
+                r = int(m.group(1))
+                nev[r] = nev.get(r, 0) + (3 if '"ev":"deliver"' in line else 1)
+    order = sorted(range(1, len(scheds) + 1), key=lambda r: nev.get(r, 0))
     groups = {}
-    steps = 0
-    for no, sc in enumerate(scheds, start=1):
+    spent = 0
+    for no in order:
+        sc = scheds[no - 1]
         cfg = sc["cfg"]
         if "sc" not in cfg:
             continue
-        # the quick tier follows a prefix of every batch only (about 300 events per second and TLC process)
-        steps += len(sc["steps"]) + sum(8 * st.get("n", 1) for st in sc["steps"] if st["a"] in ("round", "roundeach"))
-        if max_steps is not None and steps > max_steps and groups:
+        if max_steps is not None and spent + nev.get(no, 0) > 3 * max_steps and (groups or nev.get(no, 0) > 6 * max_steps):
             break
+        spent += nev.get(no, 0)
         if not all(isinstance(cfg.get(k, 0), int) for k in ("budget", "seqbase", "midbase")):
             continue            # counters started near 2^62: beyond TLC's 32-bit integers, judged by the monitor only
         multi = len(cfg.get("conns", [1])) > 1 or cfg.get("manual") or cfg.get("conns", [1]) != [1]
@@ -250,10 +261,22 @@ def strict_generated(scheds, trace_path, wd, timeout=900, max_steps=None):
                 m = pat.search(line)
                 if m:
                     clamped.add(int(m.group(1)))
+    # last use of every flush: the index of the last event of its run that delivers one of its packets (see Prune in the specs)
+    last_use = {}
+    with open(trace_path) as f:
+        for line in f:
+            if '"ev":"deliver"' in line and '"label":"genuine"' in line:
+                e = json.loads(line)
+                sender = "C" if e["side"] == "S" else "S"
+                last_use[(e["run"], e.get("conn", 1), sender, e["fl"])] = e["i"]
     with open(trace_path) as f:
         for line in f:
             m = pat.search(line)
             if m and int(m.group(1)) in run_of and int(m.group(1)) not in clamped:
+                if '"ev":"flush"' in line:
+                    e = json.loads(line)
+                    e["last_use"] = last_use.get((e["run"], e.get("conn", 1), e["side"], e["fl"]), 0)
+                    line = json.dumps(e, separators=(",", ":")) + "\n"
                 files[run_of[int(m.group(1))]].write(line)
     for fh in files.values():
         fh.close()
